@@ -178,6 +178,8 @@ def cmake_real(args: T.Tuple[T.List[Cmd], T.List[str], T.List[str], str, T.List[
                            stdout=subprocess.PIPE, stderr=subprocess.STDOUT, text=True, errors='replace')
         if not tf.exists() or END_MARK not in p.stdout:
             raise common.MachineryError('cmake did not process the generated project:\n' + p.stdout[-2500:])
+        if re.search(r'CMake Error at CMakeLists\.txt:\d+ \((?!message)', p.stdout):
+            raise common.MachineryError('the generated command sequence is not valid CMake:\n' + p.stdout[-2500:])
         text = tf.read_text(errors='replace')
         # cut at the end marker: what follows is the witness dump, not part of the command sequence
         lines = text.splitlines(keepends=True)
@@ -250,10 +252,14 @@ VAR_NAMES = ['V', 'W', 'LIST_X', 'CV', 'CW']
 class SeqGen:
     """Generates command sequences cmake accepts; it only tracks which names exist and of which kind."""
 
-    def __init__(self, rnd: random.Random, human_ok: bool, spaces: bool):
+    def __init__(self, rnd: random.Random, human_ok: bool, spaces: bool, plain: bool = False):
         self.r = rnd
         self.human_ok = human_ok      # every command must be unambiguous in the human format
         self.spaces = spaces          # atoms may contain blanks (json only)
+        # plain: only the basic forms of every command (one target per property command, no BEFORE/AFTER, no
+        # APPEND_STRING, values always given, COMMAND keyword always written, FORCE always given); used for the
+        # delayed-call protocol so that a verdict there is about the protocol and not about one of those forms
+        self.plain = plain
         self.kind: T.Dict[str, str] = {}
         self.style: T.Dict[str, str] = {}
         self.n = 0
@@ -326,7 +332,7 @@ class SeqGen:
             args: T.List[T.Any] = [name]
             if r.random() < 0.3:
                 args.append('ALL')
-            if r.random() < 0.3:
+            if r.random() < 0.3 and not self.plain:
                 args += [self.atom('tool'), self.atom('x')]
             for _ in range(r.randint(0 if len(args) > 2 else 1, 2)):
                 args += ['COMMAND', self.atom('tool')] + [self.atom('x') for _ in range(r.randint(0, 2))]
@@ -336,7 +342,7 @@ class SeqGen:
                 args += ['WORKING_DIRECTORY', '/wd' + str(self.n)]
             if r.random() < 0.3:
                 args.append('VERBATIM')
-            if r.random() < 0.25:
+            if r.random() < 0.25 and not self.plain:
                 args += ['SOURCES', f'{name}.c']
             self.cmds.append(C('add_custom_target', *args))
 
@@ -353,7 +359,7 @@ class SeqGen:
             self.cmds.append(C('unset', r.choice(['V', 'W', 'LIST_X'])))
         elif k < 0.92:
             args: T.List[T.Any] = [r.choice(['CV', 'CW']), self.lst('c'), 'CACHE', r.choice(['STRING', 'BOOL']), 'doc']
-            if r.random() < 0.35:
+            if r.random() < 0.35 or self.plain:
                 args.append('FORCE')
             self.cmds.append(C('set', *args))
         else:
@@ -362,9 +368,9 @@ class SeqGen:
     def set_property(self) -> None:
         r = self.r
         ts = self.targets({'normal', 'ifc', 'imp', 'exe', 'custom'})
-        chosen = r.sample(ts, min(len(ts), r.choice([1, 1, 1, 2])))
+        chosen = r.sample(ts, min(len(ts), 1 if self.plain else r.choice([1, 1, 1, 2])))
         args: T.List[T.Any] = ['TARGET'] + chosen
-        k = r.random()
+        k = r.random() if not self.plain else r.choice([0.1, 0.9])
         names = ['P', 'Q', 'R_X', 'INTERFACE_LINK_LIBRARIES', 'INTERFACE_COMPILE_DEFINITIONS', 'IMPORTED_LOCATION']
         if k < 0.35:
             args.append('APPEND')
@@ -374,14 +380,14 @@ class SeqGen:
             args.append('APPEND_STRING')
             names = ['P', 'Q', 'R_X']
         args += ['PROPERTY', r.choice(names)]
-        if r.random() > 0.08:
+        if r.random() > 0.08 or self.plain:
             args += self.values('p')
         self.cmds.append(C('set_property', *args))
 
     def set_target_properties(self) -> None:
         r = self.r
         ts = self.targets({'normal', 'ifc', 'imp', 'exe', 'custom'})
-        chosen = r.sample(ts, min(len(ts), r.choice([1, 1, 2])))
+        chosen = r.sample(ts, min(len(ts), 1 if self.plain else r.choice([1, 1, 2])))
         args: T.List[T.Any] = chosen + ['PROPERTIES']
         for p in r.sample(['P', 'Q', 'R_X', 'INTERFACE_LINK_OPTIONS', 'IMPORTED_LOCATION'], r.randint(1, 3)):
             args += [p, self.lst('q')]
@@ -402,29 +408,30 @@ class SeqGen:
         if cmd == 'target_include_directories':
             if r.random() < 0.25:
                 args.append('SYSTEM')
-            k = r.random()
+            k = r.random() if not self.plain else 1.0
             if k < 0.25:
                 args.append('BEFORE')
                 before = True
             elif k < 0.4:
                 args.append('AFTER')
-        elif cmd in ('target_compile_options', 'target_link_options') and r.random() < 0.3:
+        elif cmd in ('target_compile_options', 'target_link_options') and r.random() < 0.3 and not self.plain:
             args.append('BEFORE')
             before = True
-        if cmd == 'target_link_libraries' and full and self.style.get(t) != 'kw' and r.random() < 0.3:
-            # plain / legacy signatures (cmake refuses to mix them with the keyword signature on one target)
-            self.style[t] = 'plain'
-            if r.random() < 0.5:
-                args += [self.lst(pre) for _ in range(r.randint(1, 3))]
-            else:
-                for _ in range(r.randint(1, 2)):
-                    args += [r.choice(['LINK_PUBLIC', 'LINK_PRIVATE'])] + [self.lst(pre) for _ in range(r.randint(1, 2))]
-            self.cmds.append(C(cmd, *args))
-            return
         if cmd == 'target_link_libraries':
+            # cmake refuses to mix the plain signature with the keyword signatures (the legacy LINK_* ones included)
+            if full and self.style.get(t) != 'kw' and r.random() < 0.3:
+                self.style[t] = 'plain'
+                args += [self.lst(pre) for _ in range(r.randint(1, 3))]
+                self.cmds.append(C(cmd, *args))
+                return
             if self.style.get(t) == 'plain':
                 return
             self.style[t] = 'kw'
+            if full and r.random() < 0.25:
+                for _ in range(r.randint(1, 2)):
+                    args += [r.choice(['LINK_PRIVATE'] if self.plain else ['LINK_PUBLIC', 'LINK_PRIVATE'])] + [self.lst(pre) for _ in range(r.randint(1, 2))]
+                self.cmds.append(C(cmd, *args))
+                return
         if cmd == 'target_include_directories' and self.human_ok:
             # the human format cannot tell two directories from one directory containing a blank
             args += [r.choice(['PUBLIC', 'PRIVATE', 'INTERFACE']) if full else 'INTERFACE', self.atom(pre)]
@@ -438,8 +445,27 @@ class SeqGen:
         self.cmds.append(C(cmd, *args))
 
 
-def random_sequence(rnd: random.Random, length: int, human_ok: bool, spaces: bool) -> T.List[Cmd]:
-    g = SeqGen(rnd, human_ok, spaces)
+def random_sequence(rnd: random.Random, length: int, human_ok: bool, spaces: bool, plain: bool = False) -> T.List[Cmd]:
+    g = SeqGen(rnd, human_ok or plain, spaces, plain)
     while len(g.cmds) < length:
         g.step()
     return g.cmds
+
+
+def protocol_sequence(rnd: random.Random, length: int) -> T.List[Cmd]:
+    """A command sequence as Meson's preload.cmake makes cmake trace it: a list of delayed command names is loaded,
+    and meson_ps_execute_delayed_calls() appears now and then."""
+    base = random_sequence(rnd, length, True, False, plain=True)
+    names = rnd.sample(['set_property', 'add_custom_target', 'set_target_properties', 'target_link_libraries', 'add_dependencies'],
+                       rnd.randint(1, 3))
+    at = rnd.randint(0, min(2, len(base)))
+    out: T.List[Cmd] = []
+    for i, c in enumerate(base):
+        if i == at:
+            out += [C('set', 'MESON_PS_DELAYED_CALLS', names), C('meson_ps_reload_vars')]
+        out.append(c)
+        if i >= at and rnd.random() < 0.3:
+            out.append(C('meson_ps_execute_delayed_calls'))
+    if rnd.random() < 0.5:
+        out.append(C('meson_ps_execute_delayed_calls'))
+    return out
